@@ -180,7 +180,6 @@ pub fn run(tier: &Tier) -> i32 {
                 PrintKind::MemLen(0xFFFF0, 15),
                 PrintKind::MemDs(0),
                 PrintKind::MemDs(33),
-                PrintKind::MemRange(1 << 20, (1 << 20) + 3),
             ];
             for k in kinds {
                 let mut toks = instr_toks(&Instr::Print(k));
